@@ -294,7 +294,7 @@ def main():
     print("regen: MetaUrls.lean %s" % ("rewritten" if changed else "unchanged"))
     # the keyword functions' SOURCE, translated to terms of JS.Py.Fn (harness/translate.py)
     import translate
-    fns = translate.translate_all(os.environ.get("JSONSCHEMA_REPO", "/repo"))
+    fns = translate.translate_all(os.environ.get("JS_REPO", "/repo"))
     changed = write_if_changed(os.path.join(OUT, "Source.lean"), translate.render(fns))
     print("regen: Source.lean %s (%d functions, %d outside the translated subset)"
           % ("rewritten" if changed else "unchanged", len(fns), sum(1 for _, t in fns if t.startswith(".unsupported"))))
